@@ -4,9 +4,11 @@
      (xrefstream (d ...) xCONTENT)      -> decode_xref_stream (Model/Xref.v)
      (xreftable xBYTES)                 -> xref_and_trailer, first alternative (Model/Xref.v)
      (objstm (d ...) xCONTENT)          -> ObjectStream::new (Model/ObjStm.v)
+     (ahx xENCODED expected)            -> Stream::decode_asciihex (Model/AsciiHex.v); expected is for the harness
    <expected> = (loaded xVERSION (trailer sorted by key) (objs ...)) *)
 From LV Require Import Base.Bytes Base.Sx Model.Obj Model.Parser Model.Xref Model.ObjStm Model.Loader
   Spec.XrefSpec Spec.RefWriter.
+From LV Require Model.A85 Model.AsciiHex.
 
 Local Open Scope N_scope.
 
@@ -309,6 +311,17 @@ Definition run (x : sx) : sx :=
       match dict_of_sx a, as_bytes b with
       | Some d, Some c => xres_to_sx (decode_xref_stream no_decompress d c) true
       | _, _ => sx_id "badcase"
+      end
+    else if is_id t "ahx" then
+      match as_bytes a with
+      | Some c =>
+        match AsciiHex.decode c with
+        | A85.Ok o => SL [sx_id "ok"; sx_bytes o]
+        | A85.Err _ => SL [sx_id "err"; sx_id "io-data"]
+        | A85.Panic => sx_id "panic"
+        | A85.Fuel => sx_id "outoffuel"
+        end
+      | None => sx_id "badcase"
       end
     else if is_id t "objstm" then
       match dict_of_sx a, as_bytes b with
